@@ -60,7 +60,7 @@ def run_unit(specname, workdir, probe_fn=None, extra_args=()):
     spec = U.parse_spec(os.path.join(VERIF, "specs", specname + ".vx"))
     out = os.path.join(workdir, specname + ("" if probe_fn is None else "_p%s" % hashlib.md5(probe_fn.encode()).hexdigest()[:8]) + ".rs")
     res = U.build_unit(spec, out, probe_fn=probe_fn)
-    r = V.run_verus(out, res["linemap"], res["info"], extra_args=extra_args)
+    r = V.run_verus(out, res["linemap"], res["info"], extra_args=list(extra_args) + list(spec.verus_args))
     return spec, res, r
 
 
